@@ -30,8 +30,9 @@ LEVEL = ('decides: a solution handed out is the snapshot taken while the solver 
          'notification cursor of the trail (S17). no post / implied_by returns Ok(()) without posting '
          '(S18 MUST-PASS on path summaries) and every public variable constructor reaches exactly one '
          'engine constructor (S19 API-FORWARD) — both forbid input-dependent shortcuts, justified '
-         'exceptions are listed in a table. Does not decide that any propagator detects every '
-         'violation once its variables are fixed')
+         'exceptions are listed in a table. The fallback scan for unfixed variables covers every '
+         'domain (S3c). Does not decide that any propagator detects every violation once its variables'
+         ' are fixed')
 TECHNIQUE = "static analysis: must-pass / dominance / paired-set / override⇒declare / table rules over rustc MIR"
 
 
